@@ -318,7 +318,15 @@ func (c *fsCache) initialize(appname string) error {
 	}
 	c.fn = fragmentingFileNamer()
 	c.fnk = fragmentingFileNameKeyer()
-	c.dw = dirWalkerFunc(filepath.WalkDir)
+	// The listing walks through the root handle, like every other operation: names below it are
+	// resolved one component at a time, so a deep tree of fragment directories is not limited by
+	// the longest path the system accepts, and a base directory that is a symbolic link (or a
+	// relative one, after a change of the working directory) is the directory that was opened.
+	c.dw = dirWalkerFunc(func(dir string, fn fs.WalkDirFunc) error {
+		return fs.WalkDir(c.root.FS(), ".", func(name string, d fs.DirEntry, err error) error {
+			return fn(filepath.Join(dir, filepath.FromSlash(name)), d, err)
+		})
+	})
 	c.timeout = cmp.Or(c.timeout, defaultTimeout)
 
 	return nil
